@@ -67,6 +67,11 @@ type projector struct {
 }
 
 func (p *projector) amount(g common.Gwei) int {
+	if g%p.unit != 0 {
+		// not representable in the trace unit (an effective balance / stake that is not a multiple of the
+		// increment under the minimal preset): logged as a negative number, which matches nothing
+		return -1 - int(uint64(g/p.unit)%1000000)
+	}
 	v := uint64(g / p.unit)
 	if v >= 1<<31 {
 		panic(fmt.Sprintf("amount %d does not fit the trace", g))
@@ -447,6 +452,35 @@ func (r *recorder) logCtx(l *line, sc *chain.StateCtx, n0 int, kind string, o ou
 			flags = append(flags, "sync-period-boundary")
 		}
 	}
+	if !side {
+		for j, d := range deplook {
+			sameBlock := false
+			for _, e := range deplook[:j] {
+				sameBlock = sameBlock || (e["k"] == d["k"] && e["reg"] < 0)
+			}
+			if (d["reg"] >= n0 && d["reg"] >= 0) || sameBlock {
+				flags = append(flags, "topup-of-validator-deposited-in-same-epoch")
+			}
+		}
+	}
+	if len(reg) > preN && kind == "block" {
+		// amount classes of the new validators, observed before the next rotation
+		inc, max := spec.EFFECTIVE_BALANCE_INCREMENT, spec.MAX_EFFECTIVE_BALANCE
+		for i := preN; i < len(reg); i++ {
+			bal := sc.Balance(common.ValidatorIndex(i))
+			switch {
+			case bal > max:
+				flags = append(flags, "new-validator-amount-above-max")
+			case bal == max:
+				flags = append(flags, "new-validator-amount-at-max")
+			case bal < inc:
+				flags = append(flags, "new-validator-amount-below-one-increment")
+			}
+			if bal%inc != 0 && bal < max {
+				flags = append(flags, "new-validator-amount-not-multiple-of-increment")
+			}
+		}
+	}
 	if len(reg) > preN {
 		flags = append(flags, "deposit-new-validator")
 		if spec.SlotToEpoch(slot) == spec.SlotToEpoch(preSlot) || kind == "block" {
@@ -681,14 +715,14 @@ func chainList(tier string, seed int64) []chainCfg {
 		out = append(out, chainCfg{Name: "corner-" + name, Corner: name, ReloadEvery: 9})
 	}
 	if tier == "quick" {
-		add("S1", [4]int{1, 2, 3, 4}, 14, "", 2)
+		add("S1", [4]int{1, 2, 3, 4}, 14, "", 7)
 		add("S4", [4]int{1, 2, 3, 4}, 20, "", 1)
 		add("S1", [4]int{2, 3, 5, 6}, 14, "", 0)
 		add("S2", [4]int{1, 1, 2, 3}, 12, "", 1)
-		add("S3", [4]int{0, 0, 1, 2}, 8, "", 3)
+		add("S3", [4]int{0, 0, 1, 2}, 8, "", 7)
 		add("S4", [4]int{3, 5, 7, 9}, 22, "", 2)
 		add("S1", [4]int{0, 0, 0, 0}, 12, "", 1)
-		add("S4", [4]int{-1, -1, -1, -1}, 16, "", 2)
+		add("S4", [4]int{-1, -1, -1, -1}, 16, "", 5)
 		add("S1", [4]int{1, 2, 3, 4}, 10, "branch-same-deposits", 2)
 		add("S4", [4]int{2, 2, 4, 4}, 14, "branch-same-deposits", 1)
 		add("S1", [4]int{1, 2, 3, 4}, 8, "branch-other-deposits", 0)
@@ -720,7 +754,7 @@ func chainList(tier string, seed int64) []chainCfg {
 		if i%5 == 3 {
 			script = "branch-same-deposits"
 		}
-		add(p, s, ep, script, rng.Intn(4))
+		add(p, s, ep, script, rng.Intn(8))
 	}
 	add("S1", [4]int{1, 2, 3, 4}, 8, "branch-other-deposits", 0)
 	add("S4", [4]int{0, 0, 0, 0}, 10, "branch-other-deposits", 0)
@@ -797,9 +831,7 @@ func record(cfg chainCfg, f *os.File) {
 			spec.SLOTS_PER_HISTORICAL_ROOT = 16
 		}
 		g := chain.GenesisOpts{Validators: cfg.Validators}
-		for i := 0; i < cfg.Pending; i++ {
-			g.PendingDeposits = append(g.PendingDeposits, chain.DepositSpec{Key: chain.KeyID(cfg.Validators + i)})
-		}
+		g.PendingDeposits = pendingDeposits(spec, cfg.Validators, cfg.Pending)
 		c, err = chain.NewGenesis(spec, g)
 		// the cache-fork script needs eth1 votes to succeed on both sides: participation patterns only
 		steps = chain.RandomScenario(rand.New(rand.NewSource(cfg.Seed)), spec, chain.ScenarioOpts{Epochs: cfg.Epochs, Validators: cfg.Validators,
@@ -919,6 +951,24 @@ func record(cfg chainCfg, f *os.File) {
 		}
 	}
 	_ = json.NewEncoder(os.Stdout).Encode(r.sum)
+}
+
+// pendingDeposits are includable from slot 1 on (mid-epoch, two per block). Amounts (in 1/32000 of the maximum
+// effective balance): a new validator with an amount that is NOT a multiple of the increment, topped up in the same
+// block (partial first deposit + top-up in one epoch), just above the maximum, exactly the maximum, a small
+// fractional one, less than one increment, just below the maximum.
+func pendingDeposits(spec *common.Spec, validators, k int) []chain.DepositSpec {
+	scale := spec.MAX_EFFECTIVE_BALANCE / 32000
+	n := chain.KeyID(validators)
+	pattern := []chain.DepositSpec{{Key: n, Amount: 17500}, {Key: n, Amount: 700}, {Key: n + 1, Amount: 32500}, {Key: n + 2, Amount: 32000},
+		{Key: n + 3, Amount: 1500}, {Key: n + 4, Amount: 999}, {Key: n + 5, Amount: 31999}}
+	var out []chain.DepositSpec
+	for i := 0; i < k && i < len(pattern); i++ {
+		d := pattern[i]
+		d.Amount *= scale
+		out = append(out, d)
+	}
+	return out
 }
 
 func isAliasScript(s string) bool {
